@@ -1,4 +1,4 @@
-H(id='C09_gcry_conv', property='C09', src='C09_arith.cc', entry='h_gcry_conv', tu=['mpz_helper.cc'], unwind=12, replace=COIN, models=GCRY_MODELS, backend='kissat', timeout=900, config={'TMCG_MAX_VALUE_CHARS': 16},
+H(id='C09_gcry_conv', property='C09', src='C09_arith.cc', entry='h_gcry_conv', tu=['mpz_helper.cc'], unwind=12, replace=COIN, models=GCRY_MODELS, backend='kissat', timeout=1800, config={'TMCG_MAX_VALUE_CHARS': 16},
   defines={'VF_BITS': 26, 'H_W': 4, 'H_MAXDRAWS': 2, 'H_GCRYCONV': 1, 'H_CONVBITS': 8, 'MINISTL_STREAM_CAP': 64},
   desc='tmcg_mpz_get_gcry_mpi / tmcg_mpz_set_gcry_mpi / tmcg_get_gcry_mpi_ui: conversion between the two big-number back ends is lossless (hex text, buffer sizes)',
   symbolic='every non-negative integer below 2^8', bounds='values < 2^8 (quick) / 2^12 (thorough); TMCG_MAX_VALUE_CHARS shrunk to 16', assumptions=['libgcrypt MPI scan/print (HEX) replaced by models/gcry_model.c written from mpicoder.c'],
